@@ -95,6 +95,10 @@ func leanLayout(c Case, impl string) (string, bool) {
 var gapFillers = []struct{ name, text string }{
 	{"space", " "}, {"newline", "\n"}, {"tabs", "\t\t"}, {"linecomment", " -- c\n"},
 	{"blockcomment", "--(c)--"}, {"blockcomment-blanks", " --(c)-- "},
+	// every other character the lexer's whitespace test (unicode.IsSpace) accepts: the remaining ASCII controls and the
+	// Unicode White_Space characters, Latin-1 ones (U+0085, U+00A0) included
+	{"cr-vt-ff", "\r\v\f"}, {"crlf", "\r\n"}, {"nel-nbsp", "\u0085\u00a0"}, {"ogham-enquad", "\u1680\u2000\u2003\u200a"},
+	{"line-para-sep", "\u2028\u2029"}, {"nnbsp-mmsp-ideographic", "\u202f\u205f\u3000"},
 }
 
 type tokSpan struct {
